@@ -99,6 +99,16 @@ type checkerContext struct {
 	currentReceiver *receiverInfo
 }
 
+// inConstructorOf reports whether the code being checked is inside a function listed in
+// @constructor for the given type. Constructors live in the package that declares the type:
+// a function of another package that merely has the same name is not a constructor.
+func (ctx *checkerContext) inConstructorOf(pkgPath string, typeName string) bool {
+	if ctx.pass.Pkg == nil || ctx.pass.Pkg.Path() != pkgPath {
+		return false
+	}
+	return ctx.constructors.Match(pkgPath, *ctx.currentFunction, typeName)
+}
+
 // receiverInfo contains information about a method's receiver
 // @immutable
 type receiverInfo struct {
@@ -202,7 +212,7 @@ func checkFieldAssignment(
 		return nil
 	}
 
-	if ctx.constructors.Match(pkgPath, *ctx.currentFunction, typeName) {
+	if ctx.inConstructorOf(pkgPath, typeName) {
 		return nil
 	}
 
@@ -256,7 +266,7 @@ func checkIndexAssignment(
 		return nil
 	}
 
-	if ctx.constructors.Match(pkgPath, *ctx.currentFunction, typeName) {
+	if ctx.inConstructorOf(pkgPath, typeName) {
 		return nil
 	}
 
@@ -332,7 +342,7 @@ func checkFieldIncDec(
 		return nil
 	}
 
-	if ctx.constructors.Match(pkgPath, *ctx.currentFunction, typeName) {
+	if ctx.inConstructorOf(pkgPath, typeName) {
 		return nil
 	}
 
@@ -382,7 +392,7 @@ func checkReceiverIncDec(
 	}
 
 	// Allow in constructors
-	if ctx.constructors.Match(ctx.currentReceiver.pkgPath, *ctx.currentFunction, ctx.currentReceiver.typeName) {
+	if ctx.inConstructorOf(ctx.currentReceiver.pkgPath, ctx.currentReceiver.typeName) {
 		return nil
 	}
 
@@ -453,7 +463,7 @@ func checkCompoundLHS(
 		return nil
 	}
 
-	if ctx.constructors.Match(pkgPath, *ctx.currentFunction, typeName) {
+	if ctx.inConstructorOf(pkgPath, typeName) {
 		return nil
 	}
 
@@ -501,7 +511,7 @@ func checkReceiverReassignment(
 	}
 
 	// Allow reassignment in constructors
-	if ctx.constructors.Match(ctx.currentReceiver.pkgPath, *ctx.currentFunction, ctx.currentReceiver.typeName) {
+	if ctx.inConstructorOf(ctx.currentReceiver.pkgPath, ctx.currentReceiver.typeName) {
 		return nil
 	}
 
